@@ -164,7 +164,19 @@ func TestC18(t *testing.T) {
 		}
 		body.WriteString("print(\"end\")\n") // the script's own exit status is then that of print, not of the last probe
 		expOut += "end\n"
-		src := decl.String() + body.String()
+		bodyText := body.String()
+		if gen.Uniform(0, 1).Draw(t, "in-function") == 1 {
+			// the same calls executed inside a function (locals are mangled and emitted differently)
+			r.Class("in-function")
+			var fb strings.Builder
+			fb.WriteString("func run() {\n")
+			for _, l := range strings.Split(strings.TrimSuffix(bodyText, "\n"), "\n") {
+				fb.WriteString("\t" + l + "\n")
+			}
+			fb.WriteString("}\nrun()\n")
+			bodyText = fb.String()
+		}
+		src := decl.String() + bodyText
 		c := execCase{Kind: "bash-run", Property: "C18", Files: map[string]string{"main.tsh": src}, Main: "main.tsh", Stdin: stdin, Exec: exec,
 			ExpectStdout: expOut, ExpectStatus: 0, ExpectFS: expLogs, CheckFS: true, Env: []string{"PATH={BOX}/bin"}}
 		r.Eval()
